@@ -11,13 +11,18 @@ from engine.extract import REPO, AnalysisBroken
 from engine.facts import walk, children
 
 LEVEL = "translation_validation"
-NEEDS_FACTS = "thorough"
-MIN_OBLIGATIONS = 2
+NEEDS_FACTS = True
+MIN_OBLIGATIONS = 3
+QUICK_CONFIGS = ("headeronly",)
 THOROUGH_CONFIGS = ("headeronly",)
-TECHNIQUE = "translation validation on text: the project's generator is re-run on a scratch copy of the working tree and its output compared byte for byte with qtlogger.h; thorough tier adds an AST-level comparison of every function body between the header-only and the library build"
+MIN_FUNCTIONS_COMPARED = 250
+TECHNIQUE = ("translation validation: (text) the project's generator is re-run on a scratch copy of the working tree and its output compared byte for byte with qtlogger.h; "
+             "(resolved program) the type-checked clang AST of every function of the library build is compared with the same function parsed from qtlogger.h - resolved callees, "
+             "overloads, implicit conversions and constants included - so a header that is the exact amalgamation but means something else is seen as well")
 LEVEL_TEXT = ("Fully decided on text: one amalgamation (the working tree's sources) is regenerated with the project's own source-to-source tool and compared "
-              "byte for byte; every difference is a hunk mapped to the originating source file. The thorough tier also compares the normalised clang AST of every "
-              "function of the library build with the same function parsed from qtlogger.h, so a generator that silently drops or alters code is seen as well.")
+              "byte for byte; every difference is a hunk mapped to the originating source file. Both tiers also compare the normalised, type-checked clang AST of every "
+              "function of the library build with the same function parsed from qtlogger.h: a generator that silently drops or alters code, or file-local names of two "
+              "sources that meet in the single translation unit and change overload resolution, are seen as well.")
 LEVEL_NOTE = "trusts python3 running tools/gen_qtlogger.h.py as the oracle named by the property; the library itself is never executed"
 DESIGN_REF = "DESIGN.md section 3, C20"
 EXPLANATION = ("src/qtlogger, tools/gen_qtlogger.h.py and qtlogger.h of the working tree are copied to a scratch directory, the generator is run there and its "
@@ -50,6 +55,11 @@ def attribute_line(lines, idx):
 def run(ck):
     if ck.config != "lib":
         return
+    text_agreement(ck)
+    ast_agreement(ck)
+
+
+def text_agreement(ck):
     ck.rule("C20-O1", "qtlogger.h is byte-for-byte the output of tools/gen_qtlogger.h.py on the current src/qtlogger")
     hdr = os.path.join(REPO, "qtlogger.h")
     gen = os.path.join(REPO, "tools", "gen_qtlogger.h.py")
@@ -158,12 +168,46 @@ def canon(n, env):
     return n
 
 
-def run_thorough(ck):
+def first_difference(a, b, path="body"):
+    """where two normalised trees part: (path, what the library has, what the header has)"""
+    if isinstance(a, dict) and isinstance(b, dict):
+        for k in sorted(set(a) | set(b)):
+            if k in ("id", "l", "c", "unit", "fn", "insts", "decl"):
+                continue
+            if k not in a or k not in b:
+                return path, "%s=%r" % (k, a.get(k)), "%s=%r" % (k, b.get(k))
+            if isinstance(a[k], (dict, list)):
+                continue
+            x, y = a[k], b[k]
+            if isinstance(x, str):
+                x, y = re.sub(r"\(lambda at [^)]*\)", "(lambda)", x), re.sub(r"\(lambda at [^)]*\)", "(lambda)", str(y))
+            if x != y:
+                return path, "%s=%r" % (k, a[k]), "%s=%r" % (k, b[k])
+        for k in sorted(set(a) | set(b)):
+            if isinstance(a.get(k), (dict, list)):
+                r = first_difference(a[k], b.get(k), "%s.%s" % (path, k) if not isinstance(a[k], list) else "%s.%s" % (path, k))
+                if r:
+                    return r
+        return None
+    if isinstance(a, list) and isinstance(b, list):
+        if len(a) != len(b):
+            return path, "%d elements" % len(a), "%d elements" % len(b)
+        for i, (x, y) in enumerate(zip(a, b)):
+            r = first_difference(x, y, "%s[%d]" % (path, i))
+            if r:
+                return r
+        return None
+    if type(a) != type(b):
+        return path, repr(a)[:60], repr(b)[:60]
+    return None
+
+
+def ast_agreement(ck):
     """AST-level agreement between the library build and the header-only build"""
     lib = ck.configs.get("lib")
     ho = ck.configs.get("headeronly")
     if lib is None or ho is None or not lib.fns:
-        return
+        raise AnalysisBroken("the header-only configuration (qtlogger.h as one translation unit) could not be extracted")
     ck.rule("C20-O2", "every function of the library build exists in the header-only build (qtlogger.h) with an identical normalised AST")
     by_sig = {}
     for f in ho.fns.values():
@@ -174,6 +218,7 @@ def run_thorough(ck):
         if f.lambda_of:
             continue
         n += 1
+        ck.touch(f)
         cands = [x for x in by_sig.get(f.sig, []) if not x.lambda_of]
         if not cands:
             bad += 1
@@ -182,5 +227,13 @@ def run_thorough(ck):
         a = canon({"body": f.body, "inits": f.inits}, {})
         if not any(canon({"body": x.body, "inits": x.inits}, {}) == a for x in cands):
             bad += 1
-            ck.ob("C20-O2", "%s (%s)" % (f.loc(), f.sig), False, "body in qtlogger.h differs from the library source", key="differs-in-header|%s" % f.sig)
+            d = first_difference({"body": f.body, "inits": f.inits}, {"body": cands[0].body, "inits": cands[0].inits}, "")
+            where = ""
+            if d:
+                node = None
+                where = " - first difference at %s: library %s, single header %s" % (d[0].lstrip("."), d[1], d[2])
+            ck.ob("C20-O2", "%s (%s)" % (f.loc(), f.sig), False, "the same source text means something else inside qtlogger.h (resolved callee / overload / conversion / constant differs)%s" % where[:400],
+                  key="differs-in-header|%s" % f.sig)
+    if n < MIN_FUNCTIONS_COMPARED:
+        raise AnalysisBroken("only %d library functions were compared with the single header (%d confirmed by hand)" % (n, MIN_FUNCTIONS_COMPARED))
     ck.ob("C20-O2", "qtlogger.h vs src/qtlogger", bad == 0, "%d library functions compared with their header-only counterparts, %d disagreements" % (n, bad), key="ast-summary")
